@@ -29,10 +29,12 @@ import (
 	"math/rand/v2"
 	"sort"
 	"sync"
+	"sync/atomic"
 	"testing"
 	"time"
 
 	"github.com/twmb/franz-go/pkg/kadm"
+	"github.com/twmb/franz-go/pkg/kerr"
 	"github.com/twmb/franz-go/pkg/kfake"
 	"github.com/twmb/franz-go/pkg/kgo"
 	"github.com/twmb/franz-go/pkg/kmsg"
@@ -143,6 +145,12 @@ type plan struct {
 	HasCommit bool    `json:"group_has_commit,omitempty"`
 	Commit    int64   `json:"group_committed_offset,omitempty"`
 	CommitEp  bool    `json:"group_commit_with_epoch,omitempty"`
+	// ListErr: the first ListErrN ListOffsets answers to the consumer under test that are a
+	// pure start listing (timestamp -2), a pure end listing (-1), or any listing, carry a
+	// retriable partition error and offset -1 (what a broker answers right after a leader
+	// election). The documented position is unchanged: the client must retry, not use -1.
+	ListErr  string `json:"list_offsets_error_on,omitempty"` // "" | start | end | any
+	ListErrN int    `json:"list_offsets_error_count,omitempty"`
 }
 
 func genLog(rng *rand.Rand, p *plan) {
@@ -521,6 +529,8 @@ type obs struct {
 	lists   int
 	epochs  int
 	ch      chan int64
+
+	listErrs int // injected ListOffsets partition errors
 }
 
 type result struct {
@@ -561,8 +571,64 @@ func runCase(r *vh.Run, i int) {
 		r.Inconclusive(fmt.Sprintf("case %d: %s: %v", i, what, err))
 	}
 
+	if lrng := r.Rand("c40-listerr", i); lrng.IntN(4) == 0 {
+		p.ListErr, p.ListErrN = []string{"start", "end", "end", "any"}[lrng.IntN(4)], 1+lrng.IntN(2)
+	}
 	o := &obs{ch: make(chan int64, 4096)}
 	fnet := &faultnet.Net{}
+	var listErrLeft atomic.Int32
+	listErrLeft.Store(int32(p.ListErrN))
+	fnet.Decide = func(q *faultnet.Req) faultnet.Action {
+		if q.Key != 2 || q.ClientID != cutID || p.ListErr == "" {
+			return faultnet.Action{}
+		}
+		req, ok := q.Decode().(*kmsg.ListOffsetsRequest)
+		if !ok || req == nil {
+			return faultnet.Action{}
+		}
+		kind := ""
+		for _, t := range req.Topics {
+			for _, pt := range t.Partitions {
+				k := "other"
+				switch pt.Timestamp {
+				case -2:
+					k = "start"
+				case -1:
+					k = "end"
+				}
+				if kind == "" {
+					kind = k
+				} else if kind != k {
+					kind = "other"
+				}
+			}
+		}
+		if p.ListErr != "any" && kind != p.ListErr {
+			return faultnet.Action{}
+		}
+		if listErrLeft.Add(-1) < 0 {
+			return faultnet.Action{}
+		}
+		o.mu.Lock()
+		o.listErrs++
+		o.mu.Unlock()
+		return faultnet.Action{Kind: faultnet.Rewrite, Rewrite: func(frame []byte) []byte {
+			return faultnet.RewriteBody(q, frame, func(kresp kmsg.Response) {
+				resp, ok := kresp.(*kmsg.ListOffsetsResponse)
+				if !ok {
+					return
+				}
+				for ti := range resp.Topics {
+					for pi := range resp.Topics[ti].Partitions {
+						pt := &resp.Topics[ti].Partitions[pi]
+						pt.ErrorCode = kerr.OffsetNotAvailable.Code
+						pt.Offset = -1
+						pt.Timestamp = -1
+					}
+				}
+			})
+		}}
+	}
 	fnet.Tap = func(q *faultnet.Req) {
 		if q.ClientID != cutID {
 			return
@@ -919,6 +985,9 @@ func runCase(r *vh.Run, i int) {
 	res.Resolved = resolved
 	r.Eval(1)
 	o.mu.Lock()
+	if o.listErrs > 0 {
+		r.Count("list_offsets_partition_errors_injected", o.listErrs)
+	}
 	if o.lists > 0 {
 		r.Count("resolved_via_listoffsets", 1)
 	}
